@@ -1,8 +1,11 @@
 import OptiModel.Model.Real
 import OptiModel.Proofs.NumReal
+import OptiModel.Proofs.Polar
 import Mathlib.Tactic.Ring
 import Mathlib.Tactic.Positivity
 import Mathlib.Tactic.Linarith
+import Mathlib.Tactic.FieldSimp
+import Mathlib.Tactic.LinearCombination
 /-!
 # C16  Ray intensity is never created and is removed exactly as specified
 
@@ -667,5 +670,467 @@ example : GenuineLens (11/20) [exSphere] [⟨0, 2, -10, 0, 0, 1, 1, 0⟩] ∧ Pa
     simp only [exSphere, Option.some.injEq, Prod.mk.injEq] at h
     obtain ⟨h1, h2⟩ := h
     rw [← h1, ← h2]; norm_num
+
+
+/-! ## round 8: local-frame aperture test, pure obscurations, coatings between equal media,
+vacuum wavelength, whole-history monotonicity -/
+
+/-! ### (a) the aperture test is made in the surface's LOCAL frame -/
+
+/-- **blocked iff the radius of the (local) point lies outside `[r_min, r_max]`**: for a lit ray,
+`RadialAperture.clip` zeroes the intensity exactly when `√(x²+y²) ∉ [r_min, r_max]` -/
+theorem clip_blocked_iff_radius (rmax rmin : ℝ) (r : Ray ℝ) (h0 : 0 ≤ rmin) (h1 : 0 ≤ rmax)
+    (hi : r.i ≠ 0) :
+    (clip (some (rmax, rmin)) r).i = 0 ↔
+      ¬ (rmin ≤ Real.sqrt (r.x * r.x + r.y * r.y) ∧ Real.sqrt (r.x * r.x + r.y * r.y) ≤ rmax) := by
+  rw [clip_i]
+  have hq : 0 ≤ r.x * r.x + r.y * r.y := by nlinarith [mul_self_nonneg r.x, mul_self_nonneg r.y]
+  have hS : 0 ≤ Real.sqrt (r.x * r.x + r.y * r.y) := Real.sqrt_nonneg _
+  have hSS : Real.sqrt (r.x * r.x + r.y * r.y) * Real.sqrt (r.x * r.x + r.y * r.y) =
+      r.x * r.x + r.y * r.y := Real.mul_self_sqrt hq
+  generalize Real.sqrt (r.x * r.x + r.y * r.y) = S at hS hSS ⊢
+  unfold inside
+  simp only
+  rw [← hSS]
+  have e1 : rmax * rmax < S * S ↔ rmax < S :=
+    ⟨fun h => by by_contra hc; exact absurd (mul_self_le_mul_self hS (not_lt.mp hc)) (not_le.mpr h),
+     fun h => mul_self_lt_mul_self h1 h⟩
+  have e2 : S * S < rmin * rmin ↔ S < rmin :=
+    ⟨fun h => by by_contra hc; exact absurd (mul_self_le_mul_self h0 (not_lt.mp hc)) (not_le.mpr h),
+     fun h => mul_self_lt_mul_self hS h⟩
+  by_cases h : rmax * rmax < S * S ∨ S * S < rmin * rmin
+  · rw [if_pos h]
+    simp only [mul_zero, true_iff]
+    rw [e1, e2] at h
+    rintro ⟨ha, hb⟩
+    rcases h with h | h <;> linarith
+  · rw [if_neg h]
+    simp only [mul_one]
+    constructor
+    · intro h'; exact absurd h' hi
+    · intro h'
+      exfalso; apply h'
+      rw [e1, e2] at h
+      have := not_or.mp h
+      exact ⟨not_lt.mp this.2, not_lt.mp this.1⟩
+
+example : ∃ (rmax rmin : ℝ) (r : Ray ℝ), 0 ≤ rmin ∧ 0 ≤ rmax ∧ r.i ≠ 0 :=
+  ⟨5, 1, ⟨3, 0, 0, 0, 0, 1, 1, 0⟩, by norm_num, by norm_num, by norm_num⟩
+
+/-- **blocked iff the LOCAL hit point is outside the annulus** (whole step): for a lit ray at a
+surface whose coating does not itself extinguish the ray, the intensity behind the surface is 0
+exactly when the hit point *in the surface frame* (`r` is the localised ray) is outside. -/
+theorem stepRay_blocked_iff_local (s : RSurf ℝ) (w : ℝ) (r : Ray ℝ) (t rmax rmin : ℝ)
+    (hap : s.aperture = some (rmax, rmin)) (hi : r.i ≠ 0) (hc : coatFactor s ≠ 0) :
+    (stepRay s w r t).i = 0 ↔
+      (rmax * rmax < (r.x + t * r.L) * (r.x + t * r.L) + (r.y + t * r.M) * (r.y + t * r.M) ∨
+       (r.x + t * r.L) * (r.x + t * r.L) + (r.y + t * r.M) * (r.y + t * r.M) < rmin * rmin) := by
+  rw [intensity_step, hap]
+  have ha := (atten_pos s.k1 w t).ne'
+  unfold inside
+  simp only
+  by_cases h : rmax * rmax < (r.x + t * r.L) * (r.x + t * r.L) + (r.y + t * r.M) * (r.y + t * r.M) ∨
+       (r.x + t * r.L) * (r.x + t * r.L) + (r.y + t * r.M) * (r.y + t * r.M) < rmin * rmin
+  · simp [h]
+  · simp [h, hi, hc, ha]
+
+example : exSurf.aperture = some (5, 1) ∧ (⟨0, 2, -10, 0, 0, 1, 1, 0⟩ : Ray ℝ).i ≠ 0 ∧
+    coatFactor exSurf ≠ 0 := by
+  refine ⟨rfl, by norm_num, ?_⟩
+  simp [exSurf, coatFactor]
+
+/-- the identity frame -/
+noncomputable def cs0 : Cs ℝ := ⟨0, 0, 0, 0, 0, 0⟩
+
+theorem localize_cs0 (r : Ray ℝ) : cs0.localize r = r := by
+  obtain ⟨x, y, z, L, M, N, i, o⟩ := r
+  have hz : Num.isZero (0:ℝ) = true := by rw [NumReal.isZero_eq]
+  simp only [cs0, Cs.localize, truthy, hz, Ray.translate, Bool.not_true, Bool.false_eq_true, if_false]
+  num_real
+  simp
+
+/-- **covariance (general decentre and tilt)**: the intensities behind a surface with frame `cs`
+are those behind the same surface placed at the identity frame and met by the rays expressed in
+`cs` — the decision depends on (frame, ray) only through the localised ray, so moving surface and
+rays together by any rigid motion that `cs` expresses changes no decision. -/
+theorem traceSurf_local_frame (s : RSurf ℝ) (w : ℝ) (rays : List (Ray ℝ)) (hk : s.kind ≠ .object) :
+    (traceSurf s w rays).map (·.i) =
+      (traceSurf { s with cs := cs0 } w (rays.map s.cs.localize)).map (·.i) := by
+  rw [traceSurf_body s w rays hk, traceSurf_body { s with cs := cs0 } w _ hk]
+  have e : (rays.map s.cs.localize).map (Cs.localize cs0) = rays.map s.cs.localize := by
+    rw [List.map_map]; apply List.map_congr_left; intro a _; exact localize_cs0 _
+  show _ = List.map (·.i) (List.map (fun rt => stepRay { s with cs := cs0 } w rt.1 rt.2)
+    (((rays.map s.cs.localize).map (Cs.localize cs0)).zip
+      (s.geom.distance ((rays.map s.cs.localize).map (Cs.localize cs0)))))
+  rw [e, List.map_map, List.map_map]
+  apply List.map_congr_left
+  intro rt _
+  simp only [Function.comp]
+  rw [intensity_step, intensity_step]
+  rfl
+
+/-- the rotation part of `localize` -/
+noncomputable def rotPart (rx ry rz : ℝ) (r : Ray ℝ) : Ray ℝ :=
+  let r := if truthy rx then r.rotateX (Num.neg rx) else r
+  let r := if truthy ry then r.rotateY (Num.neg ry) else r
+  if truthy rz then r.rotateZ (Num.neg rz) else r
+
+theorem localize_eq_rotPart (c : Cs ℝ) (r : Ray ℝ) :
+    c.localize r = rotPart c.rx c.ry c.rz (r.translate (Num.neg c.x) (Num.neg c.y) (Num.neg c.z)) := rfl
+
+/-- decentring the surface (in x, y and z) together with the ray gives the same local ray -/
+theorem localize_decentre_covariant (c : Cs ℝ) (r : Ray ℝ) (dx dy dz : ℝ) :
+    Cs.localize ⟨c.x + dx, c.y + dy, c.z + dz, c.rx, c.ry, c.rz⟩ (r.translate dx dy dz) =
+      c.localize r := by
+  have e : (r.translate dx dy dz).translate (Num.neg (c.x + dx)) (Num.neg (c.y + dy)) (Num.neg (c.z + dz)) =
+      r.translate (Num.neg c.x) (Num.neg c.y) (Num.neg c.z) := by
+    obtain ⟨x, y, z, L, M, N, i, o⟩ := r
+    simp only [Ray.translate]
+    num_real
+    congr 1 <;> ring
+  rw [localize_eq_rotPart, localize_eq_rotPart]
+  show rotPart c.rx c.ry c.rz ((r.translate dx dy dz).translate (Num.neg (c.x + dx))
+    (Num.neg (c.y + dy)) (Num.neg (c.z + dz))) = _
+  rw [e]
+
+/-- the surface moved by `(dx,dy,dz)` -/
+noncomputable def decentre (s : RSurf ℝ) (dx dy dz : ℝ) : RSurf ℝ :=
+  { s with cs := ⟨s.cs.x + dx, s.cs.y + dy, s.cs.z + dz, s.cs.rx, s.cs.ry, s.cs.rz⟩ }
+
+/-- **covariance under decentre**: a surface decentred by `(dx,dy,dz)` and met by the batch
+shifted by the same vector gives, ray by ray, the intensities of the undecentred configuration
+(so a ray is blocked by the decentred aperture iff its pre-image is blocked by the centred one) -/
+theorem traceSurf_decentre_covariant (s : RSurf ℝ) (w : ℝ) (rays : List (Ray ℝ)) (dx dy dz : ℝ) :
+    (traceSurf (decentre s dx dy dz) w (rays.map (fun r => r.translate dx dy dz))).map (·.i) =
+      (traceSurf s w rays).map (·.i) := by
+  by_cases hk : s.kind = .object
+  · have hk' : (decentre s dx dy dz).kind = .object := hk
+    rw [traceSurf_object s w rays hk, traceSurf_object (decentre s dx dy dz) w _ hk', List.map_map]
+    apply List.map_congr_left
+    intro a _; rfl
+  · have hk' : (decentre s dx dy dz).kind ≠ .object := hk
+    rw [traceSurf_body s w rays hk, traceSurf_body (decentre s dx dy dz) w _ hk']
+    have e : (rays.map (fun r => r.translate dx dy dz)).map (decentre s dx dy dz).cs.localize =
+        rays.map s.cs.localize := by
+      rw [List.map_map]; apply List.map_congr_left; intro a _
+      exact localize_decentre_covariant s.cs a dx dy dz
+    have hg : (decentre s dx dy dz).geom = s.geom := rfl
+    rw [e, hg, List.map_map, List.map_map]
+    apply List.map_congr_left
+    intro rt _
+    simp only [Function.comp]
+    rw [intensity_step, intensity_step]
+    rfl
+
+/-- **covariance under a tilt about the surface axis**: a radial aperture does not see a rotation
+of the local point about z -/
+theorem clip_rotateZ_i (ap : Option (ℝ × ℝ)) (r : Ray ℝ) (a : ℝ) :
+    (clip ap (r.rotateZ a)).i = (clip ap r).i := by
+  rw [clip_i, clip_i]
+  have e : (r.rotateZ a).x * (r.rotateZ a).x + (r.rotateZ a).y * (r.rotateZ a).y =
+      r.x * r.x + r.y * r.y := by
+    simp only [Ray.rotateZ]
+    num_real
+    linear_combination (r.x * r.x + r.y * r.y) * Real.sin_sq_add_cos_sq a
+  cases ap with
+  | none => rfl
+  | some p =>
+    obtain ⟨rmax, rmin⟩ := p
+    simp only [inside]
+    rw [e]
+    rfl
+
+/-- a plane surface decentred by 10 mm in x with a clear radius of 5 mm -/
+noncomputable def exDecentred : RSurf ℝ :=
+  ⟨.standard, ⟨10, 0, 0, 0, 0, 0⟩, .plane, 1, 1, 0, false, some (5, 0), none⟩
+
+/-- **witness: testing the GLOBAL point differs on a decentred surface.**  The ray through the
+centre of the decentred surface (global hit point `(10, 0)`, local hit point `(0, 0)`) passes with
+intensity 1, whereas the aperture indicator evaluated at the global point is 0. -/
+theorem global_test_differs_witness :
+    (traceSurf exDecentred (11/20) [⟨10, 0, -1, 0, 0, 1, 1, 0⟩]).map (·.i) = [1] ∧
+    inside exDecentred.aperture 10 0 = 0 := by
+  have hloc : exDecentred.cs.localize ⟨10, 0, -1, 0, 0, 1, 1, 0⟩ = (⟨0, 0, -1, 0, 0, 1, 1, 0⟩ : Ray ℝ) := by
+    have hz : Num.isZero (0:ℝ) = true := by rw [NumReal.isZero_eq]
+    simp only [exDecentred, Cs.localize, truthy, hz, Ray.translate, Bool.not_true, Bool.false_eq_true, if_false]
+    num_real
+    norm_num
+  have hpd : planeDistance (⟨0, 0, -1, 0, 0, 1, 1, 0⟩ : Ray ℝ) = 1 := by
+    unfold planeDistance maskNeg
+    num_real
+    norm_num
+  constructor
+  · rw [traceSurf_body _ _ _ (by simp [exDecentred])]
+    have hg : exDecentred.geom = .plane := rfl
+    simp only [List.map_cons, List.map_nil, hloc, hg, Geom.distance, hpd, List.zip_cons_cons,
+      List.zip_nil_right, intensity_step]
+    simp [exDecentred, atten, inside, coatFactor]
+  · simp only [exDecentred, inside]
+    norm_num
+
+/-! ### (b) pure obscurations and unlimited apertures -/
+
+open scoped Num in
+/-- **pure obscuration, any carrier**: on a carrier in which nothing exceeds `inf·inf` (IEEE:
+`inf < a` is false for every `a`, NaN included) `clip` with `r_max = inf` is the bare test
+`radius² < r_min²` — there is no early return for an infinite `r_max`. -/
+theorem clip_pure_obscuration_generic {α : Type} [Num α]
+    (hinf : ∀ a : α, Num.lt ((Num.inf : α) * Num.inf) a = false) (rmin : α) (r : Ray α) :
+    clip (some (Num.inf, rmin)) r =
+      if Num.lt (r.x * r.x + r.y * r.y) (rmin * rmin) then { r with i := 0 } else r := by
+  unfold clip
+  simp only [hinf, Bool.false_or]
+
+/-- **pure obscuration over ℝ** (`r_max` beyond the ray: `ℝ` has no `inf`): a lit ray is blocked
+exactly when its local radius is `< r_min` -/
+theorem obscuration_blocks_iff (rmax rmin : ℝ) (r : Ray ℝ)
+    (hbig : r.x * r.x + r.y * r.y ≤ rmax * rmax) (hi : r.i ≠ 0) :
+    (clip (some (rmax, rmin)) r).i = 0 ↔ r.x * r.x + r.y * r.y < rmin * rmin := by
+  rw [clip_i]
+  unfold inside
+  simp only
+  by_cases h : r.x * r.x + r.y * r.y < rmin * rmin
+  · simp [h]
+  · have : ¬ (rmax * rmax < r.x * r.x + r.y * r.y ∨ r.x * r.x + r.y * r.y < rmin * rmin) := by
+      intro h'; rcases h' with h' | h'
+      · linarith
+      · exact h h'
+    rw [if_neg this]
+    simp [h, hi]
+
+example : ∃ (rmax rmin : ℝ) (r : Ray ℝ), r.x * r.x + r.y * r.y ≤ rmax * rmax ∧ r.i ≠ 0 ∧
+    r.x * r.x + r.y * r.y < rmin * rmin :=
+  ⟨1000, 2, ⟨1, 0, 0, 0, 0, 1, 1, 0⟩, by norm_num, by norm_num, by norm_num⟩
+
+/-- whole step through a pure obscuration -/
+theorem stepRay_pure_obscuration (s : RSurf ℝ) (w : ℝ) (r : Ray ℝ) (t rmax rmin : ℝ)
+    (hap : s.aperture = some (rmax, rmin)) (hi : r.i ≠ 0) (hc : coatFactor s ≠ 0)
+    (hbig : (r.x + t * r.L) * (r.x + t * r.L) + (r.y + t * r.M) * (r.y + t * r.M) ≤ rmax * rmax) :
+    (stepRay s w r t).i = 0 ↔
+      (r.x + t * r.L) * (r.x + t * r.L) + (r.y + t * r.M) * (r.y + t * r.M) < rmin * rmin := by
+  rw [stepRay_blocked_iff_local s w r t rmax rmin hap hi hc]
+  constructor
+  · intro h; rcases h with h | h
+    · linarith
+    · exact h
+  · exact Or.inr
+
+/-- **`r_min = 0`, `r_max` unlimited blocks nothing**: the ray comes back unchanged -/
+theorem open_aperture_blocks_nothing (rmax : ℝ) (r : Ray ℝ)
+    (hbig : r.x * r.x + r.y * r.y ≤ rmax * rmax) : clip (some (rmax, 0)) r = r := by
+  unfold clip
+  simp only [Bool.or_eq_true]
+  num_real
+  rw [if_neg]
+  intro h
+  rcases h with h | h
+  · linarith
+  · nlinarith [mul_self_nonneg r.x, mul_self_nonneg r.y]
+
+example : (3:ℝ) * 3 + 4 * 4 ≤ 1000 * 1000 := by norm_num
+
+/-! ### (c) coatings act whether or not the media differ -/
+
+/-- between equal media (`n₁ = n₂ ≠ 0`) `RealRays.refract` returns the ray itself, whatever the
+normal (no unit-length assumption is needed) -/
+theorem refract_equal_media_undeviated (r : Ray ℝ) (nx ny nz n : ℝ) (hn : n ≠ 0) :
+    r.refract nx ny nz n n = r := by
+  obtain ⟨x, y, z, L, M, N, i, o⟩ := r
+  simp only [Ray.refract, alignNormal]
+  num_real
+  rw [div_self hn]
+  have e : (1:ℝ) - 1 * 1 * (1 - |L * nx + M * ny + N * nz| * |L * nx + M * ny + N * nz|) =
+      |L * nx + M * ny + N * nz| * |L * nx + M * ny + N * nz| := by ring
+  rw [e, Real.sqrt_mul_self (abs_nonneg _)]
+  congr 1 <;> ring
+
+/-- **a SimpleCoating on a surface between equal media still acts**: the ray leaves undeviated
+with intensity `T · i` (not `i`) -/
+theorem interact_equal_media_coating (s : RSurf ℝ) (r : Ray ℝ) (T R : ℝ) (hk : s.kind = .standard)
+    (hr : s.refl = false) (hco : s.coating = some (T, R)) (hn : s.n1 = s.n2) (hn0 : s.n2 ≠ 0) :
+    interact s r = { r with i := r.i * T } := by
+  obtain ⟨kind, cs, geom, n1, n2, k1, refl, ap, co⟩ := s
+  simp only at hk hr hco hn hn0
+  subst hk hr hco hn
+  unfold interact
+  simp only
+  generalize geom.normal r = nrm
+  obtain ⟨nx, ny, nz⟩ := nrm
+  simp only [Bool.false_eq_true, if_false, refract_equal_media_undeviated r nx ny nz _ hn0]
+
+/-- an air-to-air coated dummy surface -/
+noncomputable def exDummy : RSurf ℝ :=
+  ⟨.standard, ⟨0, 0, 0, 0, 0, 0⟩, .plane, 1, 1, 0, false, none, some (4/5, 1/5)⟩
+
+example : exDummy.kind = .standard ∧ exDummy.refl = false ∧ exDummy.coating = some (4/5, 1/5) ∧
+    exDummy.n1 = exDummy.n2 ∧ exDummy.n2 ≠ 0 := by
+  refine ⟨rfl, rfl, rfl, rfl, ?_⟩
+  simp [exDummy]
+
+/-- **coating factor for any pair of media**: behind a coated refracting surface the intensity is
+`i · atten · inside · T`, with no condition on `n₁`, `n₂` -/
+theorem stepRay_coating_any_media (s : RSurf ℝ) (w : ℝ) (r : Ray ℝ) (t T R : ℝ)
+    (hk : s.kind ≠ .image) (hr : s.refl = false) (hco : s.coating = some (T, R)) :
+    (stepRay s w r t).i =
+      r.i * atten s.k1 w t * inside s.aperture (r.x + t * r.L) (r.y + t * r.M) * T := by
+  rw [intensity_step]
+  have : coatFactor s = T := by
+    unfold coatFactor
+    rw [hco, hr]
+    cases h : s.kind with
+    | image => exact absurd h hk
+    | object => rfl
+    | standard => rfl
+  rw [this]
+
+/-- **the refractive indices do not enter the intensity at all** -/
+theorem stepRay_i_indep_index (s : RSurf ℝ) (w : ℝ) (r : Ray ℝ) (t a b : ℝ) :
+    (stepRay { s with n1 := a, n2 := b } w r t).i = (stepRay s w r t).i := by
+  rw [intensity_step, intensity_step]
+  rfl
+
+/-! ### (d) Beer–Lambert with the vacuum wavelength -/
+
+/-- **the attenuation is `exp(−4πk·d/λ)` with `d = 10³·t` (mm → µm) and `λ` the vacuum
+wavelength**: the refractive index is not an argument of `propagate` -/
+theorem propagate_vacuum_wavelength (r : Ray ℝ) (t k w : ℝ) :
+    (r.propagate t k w).i = r.i * Real.exp (-(4 * Real.pi * k * (1000 * t) / w)) := by
+  rw [propagate_i]
+  unfold atten
+  congr 2
+  ring
+
+/-- using the wavelength in the medium `λ/n` instead would give a different attenuation whenever
+`n ≠ 1` in an absorbing medium -/
+theorem atten_medium_wavelength_differs (k w t n : ℝ) (hk : 0 < k) (hw : 0 < w) (ht : 0 < t)
+    (hn : 0 < n) (hn1 : n ≠ 1) : atten k (w / n) t ≠ atten k w t := by
+  unfold atten
+  intro h
+  have h' := Real.exp_injective h
+  have hpi := Real.pi_pos
+  have e : 4 * Real.pi * k / (w / n) = n * (4 * Real.pi * k / w) := by
+    field_simp
+  rw [e] at h'
+  have hC : (n - 1) * (4 * Real.pi * k / w * t * 1000) = 0 := by linear_combination (-1 : ℝ) * h'
+  rcases mul_eq_zero.mp hC with h1 | h1
+  · exact hn1 (by linarith)
+  · have : 0 < 4 * Real.pi * k / w * t * 1000 := by positivity
+    linarith
+
+example : (0:ℝ) < 1/100000 ∧ (0:ℝ) < 11/20 ∧ (0:ℝ) < 10 ∧ (0:ℝ) < 3/2 ∧ (3/2:ℝ) ≠ 1 := by norm_num
+
+/-- Beer–Lambert composes: two consecutive lengths in the same medium attenuate as their sum -/
+theorem atten_add (k w t1 t2 : ℝ) : atten k w (t1 + t2) = atten k w t1 * atten k w t2 := by
+  unfold atten
+  rw [← Real.exp_add]
+  congr 1
+  ring
+
+/-- in an absorbing medium every positive length strictly attenuates -/
+theorem atten_lt_one (k w t : ℝ) (hk : 0 < k) (hw : 0 < w) (ht : 0 < t) : atten k w t < 1 := by
+  unfold atten
+  rw [Real.exp_lt_one_iff]
+  have hpi := Real.pi_pos
+  have : 0 < 4 * Real.pi * k / w * t * 1000 := by positivity
+  linarith
+
+/-! ### monotonicity, range and darkness along the WHOLE history -/
+
+theorem forall₂_trans' {β : Type} {R : β → β → Prop} (htr : ∀ a b c, R a b → R b c → R a c) :
+    ∀ {l1 l2 l3 : List β}, List.Forall₂ R l1 l2 → List.Forall₂ R l2 l3 → List.Forall₂ R l1 l3
+  | _, _, _, .nil, .nil => .nil
+  | _, _, _, .cons h t, .cons h' t' => .cons (htr _ _ _ h h') (forall₂_trans' htr t t')
+
+/-- a transitive relation that holds between consecutive records holds between the launch batch
+and every record -/
+theorem along_all {P : ℝ → ℝ → Prop} (htr : ∀ a b c, P a b → P b c → P a c) :
+    ∀ (recs : List (List (Ray ℝ))) (rays : List (Ray ℝ)), Along P rays recs →
+      ∀ rc ∈ recs, List.Forall₂ (fun a b => P a.i b.i) rays rc
+  | [], _, _, _, h => by simp at h
+  | cur :: rest, rays, hA, rc, h => by
+    rcases List.mem_cons.mp h with e | e
+    · rw [e]; exact hA.1
+    · exact forall₂_trans' (fun a b c => htr a.i b.i c.i) hA.1 (along_all htr rest cur hA.2 rc e)
+
+/-- **every record is below the launch intensity**: at every surface of a passive lens, ray by
+ray, `0 ≤ i_surface ≤ i_launch` -/
+theorem intensity_le_launch (w : ℝ) (hw : 0 < w) (ss : List (RSurf ℝ)) (rays : List (Ray ℝ))
+    (hp : ∀ s ∈ ss, Passive s) (hd : DistNonneg w ss rays) (hi : ∀ r ∈ rays, 0 ≤ r.i) :
+    ∀ rc ∈ traceLens w ss rays, List.Forall₂ (fun a b => 0 ≤ b.i ∧ b.i ≤ a.i) rays rc :=
+  along_all (P := fun i i' => 0 ≤ i' ∧ i' ≤ i) (fun _ _ _ h1 h2 => ⟨h2.1, le_trans h2.2 h1.2⟩) _ _
+    (intensity_monotone w hw ss rays hp hd hi)
+
+/-- **darkness is absorbing**: for every lens whatsoever, a ray launched (or arriving) with
+intensity 0 has intensity 0 in every later record -/
+theorem dark_forever (w : ℝ) (ss : List (RSurf ℝ)) (rays : List (Ray ℝ)) :
+    ∀ rc ∈ traceLens w ss rays, List.Forall₂ (fun a b => a.i = 0 → b.i = 0) rays rc :=
+  along_all (P := fun i i' => i = 0 → i' = 0) (fun _ _ _ h1 h2 h => h2 (h1 h)) _ _
+    (dark_stays_dark w ss rays)
+
+/-- once a ray is dark at surface `s`, it is dark at every record of the rest of the lens
+(`dark_forever` applied to the tail of the history) -/
+theorem dark_after_surface (w : ℝ) (s : RSurf ℝ) (ss : List (RSurf ℝ)) (rays : List (Ray ℝ)) :
+    ∀ rc ∈ traceLens w ss (traceSurf s w rays),
+      List.Forall₂ (fun a b => a.i = 0 → b.i = 0) (traceSurf s w rays) rc :=
+  dark_forever w ss (traceSurf s w rays)
+
+
+/-- **the rays returned by the trace are below the launch intensities**: `0 ≤ rays.i ≤ i_launch`
+ray by ray for the batch `SurfaceGroup.trace` hands back (hypotheses: those of
+`intensity_monotone`, satisfiable by the `exSurf`/`exMirror` example above) -/
+theorem final_intensity_le_launch (w : ℝ) (hw : 0 < w) : ∀ (ss : List (RSurf ℝ)) (rays : List (Ray ℝ)),
+    (∀ s ∈ ss, Passive s) → DistNonneg w ss rays → (∀ r ∈ rays, 0 ≤ r.i) →
+    List.Forall₂ (fun a b => 0 ≤ b.i ∧ b.i ≤ a.i) rays (finalRays w ss rays)
+  | [], rays, _, _, hi => by
+    simp only [finalRays]
+    induction rays with
+    | nil => exact .nil
+    | cons a l ih => exact .cons ⟨hi a (by simp), le_refl _⟩ (ih trivial (fun r hr => hi r (by simp [hr])))
+  | s :: ss, rays, hp, hd, hi => by
+    have h1 := traceSurf_monotone s w rays (hp s (by simp)) hw hd.1 hi
+    have h2 := final_intensity_le_launch w hw ss _ (fun t ht => hp t (by simp [ht])) hd.2
+      (forall₂_imp_right h1 (fun _ _ _ h => h.1))
+    exact forall₂_trans' (R := fun (a b : Ray ℝ) => 0 ≤ b.i ∧ b.i ≤ a.i)
+      (fun _ _ _ g1 g2 => ⟨g2.1, le_trans g2.2 g1.2⟩) h1 h2
+
+/-! ### (c, polarization) the polarization update is the identity for an undeviated ray -/
+
+section polar
+open Model.Polar PolarLemmas
+
+theorem cross_self_vnorm (k : V3 ℝ) : vnorm (cross k k) = 0 := by
+  rw [vnorm_eq_zero_iff]
+  simp only [cross]
+  num_real
+  refine ⟨by ring, by ring, by ring⟩
+
+/-- **`PolarizedRays.update` between equal media**: for an undeviated unit direction `k` (not along
+x̂, where `_get_3d_electric_field` raises) the code takes its fallback frame `s = k × x̂` and the
+surface matrix `o_out @ o_in` is exactly the identity -/
+theorem surfaceMatrix_undeviated (k : V3 ℝ) (hk : dot k k = 1) (hx : k.y ≠ 0 ∨ k.z ≠ 0) :
+    surfaceMatrix k k = M3.one := by
+  have hF : FrameOK k k := ⟨hk, hk, fun _ => hx, Or.inl (cross_self_vnorm k)⟩
+  obtain ⟨hs, hs0, _⟩ := sVector_spec k k hF
+  rw [surfaceMatrix_eq]
+  unfold frameMatrix
+  rw [ofCols_eq]
+  exact frame_cols _ k hs hk hs0
+
+/-- hence `rays.p` (real: a `SimpleCoating` supplies no Jones matrix) is left unchanged by the
+update at a surface between equal media, where `refract_equal_media_undeviated` gives `k₁ = k₀`.
+`_partial`: stated for a real `p` (no Jones matrix met before); for a complex `p` the same holds
+through `cmul` by the identity, not proved here. -/
+theorem polarization_update_identity_undeviated_partial (M : M3 ℝ) (k : V3 ℝ) (hk : dot k k = 1)
+    (hx : k.y ≠ 0 ∨ k.z ≠ 0) : update (.real M) ⟨k, k, none⟩ = .real M := by
+  simp only [update, polSurface, PMat.mul]
+  rw [surfaceMatrix_undeviated k hk hx, one_mul']
+
+example : dot (⟨0, 3/5, 4/5⟩ : V3 ℝ) ⟨0, 3/5, 4/5⟩ = 1 ∧ ((3/5 : ℝ) ≠ 0 ∨ (4/5 : ℝ) ≠ 0) := by
+  refine ⟨?_, Or.inl (by norm_num)⟩
+  unfold dot
+  num_real
+  norm_num
+
+end polar
 
 end C16
